@@ -220,6 +220,9 @@ class Prog:
             self.norm_stats["constants_inlined"] = normalise.inline_constants(trees)
             self.norm_stats["accumulator_loops_folded"] = sum(normalise.fold_accumulator_loops(t) for t in trees.values())
             self.norm_stats["single_use_temporaries_inlined"] = sum(normalise.inline_single_use_temps(t) for t in trees.values())
+            # inlining a temporary can leave a loop body that is a plain accumulation again (and vice versa): second round
+            self.norm_stats["accumulator_loops_folded"] += sum(normalise.fold_accumulator_loops(t) for t in trees.values())
+            self.norm_stats["single_use_temporaries_inlined"] += sum(normalise.inline_single_use_temps(t) for t in trees.values())
             self.norm_stats["tails_duplicated_into_branches"] = sum(normalise.duplicate_tail_into_branches(t) for t in trees.values())
         self._index()
         self._resolve_bases()
@@ -917,6 +920,10 @@ class Prog:
             mod = fn.mod if fn is not None else None
         if expr is None or mod is None or _d > 8:
             return UNKNOWN
+        if hasattr(expr, "_ann") and fn is not None:  # an expression that stands for an annotated temporary / helper result (normalise.py)
+            t_ann = self.ann_type(expr._ann, fn.mod, fn)
+            if t_ann.kind != "unknown":
+                return t_ann
         if isinstance(expr, ast.Constant):
             v = expr.value
             return NONE if v is None else BOOL if isinstance(v, bool) else STR if isinstance(v, str) else INT if isinstance(v, int) else UNKNOWN
